@@ -1,69 +1,125 @@
-(* Proofs/SrvRfcLegal.v - C08 (b), the part that follows from (a): a frame the table lets take effect
-   never draws an error of a class other than the ones the RFC leaves to the server's discretion
-   (refusal, limits, decoding, flow control). *)
+(* Proofs/SrvRfcLegal.v - C08 (b), the part that follows from (a): a frame the table lets take effect is
+   processed, or draws one of the few errors the table lists next to "process" for its type. *)
 From H2V Require Import Base.Bytes Base.MachineInt Base.Result Gen.GenConsts Impl.ServerConn.
 From H2V Require Import Proofs.SrvBase Proofs.SrvRfcDefs Proofs.SrvRfcThm.
 From Coq Require Import ZArith Lia.
 Local Open Scope N_scope.
 
-(* the codes of the errors a server may raise for reasons of its own (RS.policy, RS.block_errors, flow control;
-   NO_ERROR when the peer says GOAWAY) *)
-Definition stream_limit_code (c : N) : bool :=
-  (c =? c_RefusedStreamError) || (c =? c_EnhanceYourCalm) || (c =? c_StreamCanceled) || (c =? c_InternalError) ||
-  (c =? c_ProtocolError) || (c =? c_FlowControlError).
-Definition conn_limit_code (c : N) : bool :=
-  (c =? c_CompressionError) || (c =? c_EnhanceYourCalm) || (c =? c_InternalError) || (c =? c_FlowControlError) || (c =? c_NoError).
+(* the codes of the resets a server may decide on for reasons of its own (RS.policy), and of the connection errors a
+   header block may end in (RS.block_errors) *)
+Definition policy_code (c : N) : bool :=
+  (c =? c_RefusedStreamError) || (c =? c_EnhanceYourCalm) || (c =? c_StreamCanceled) || (c =? c_InternalError) || (c =? c_ProtocolError).
+Definition block_code (c : N) : bool :=
+  (c =? c_CompressionError) || (c =? c_EnhanceYourCalm) || (c =? c_InternalError) || (c =? c_ProtocolError).
 
-Definition limit_verdict (v : RS.verdict) : bool :=
+Definition is_rst_frame (f : RS.frame) : bool := match RS.f_kind f with RS.RST_STREAM => true | _ => false end.
+
+(* what the table lists next to "process" *)
+Definition side_verdict (f : RS.frame) (v : RS.verdict) : bool :=
   match v with
   | RS.VProcess | RS.VIgnore => true
-  | RS.SE c => stream_limit_code c
-  | RS.CE c => conn_limit_code c
+  | RS.PE c => policy_code c && negb (is_rst_frame f)
+  | RS.SE c => (c =? c_FlowControlError) && match RS.f_kind f with RS.DATA | RS.WINDOW_UPDATE => true | _ => false end
+  | RS.CE c =>
+    match RS.f_kind f with
+    | RS.HEADERS | RS.CONTINUATION => block_code c
+    | RS.SETTINGS | RS.WINDOW_UPDATE => c =? c_FlowControlError
+    | RS.GOAWAY => c =? c_NoError
+    | _ => false
+    end
   end.
 
-(* Process, Ignore, or an error of these classes (5.4.1: any of them may be escalated, or delivered by closing) *)
-Definition mild (r : RS.reaction) : bool :=
+(* ... and the reactions that leaves: the frame is processed (or a PRIORITY frame ignored), or
+   - the stream is reset for a reason of the server's own (never in answer to RST_STREAM), or for flow control;
+   - the connection ends only for what a header block can end in (HEADERS, CONTINUATION), for flow control (DATA,
+     WINDOW_UPDATE, SETTINGS), or because the peer said GOAWAY;
+   so never STREAM_CLOSED or FRAME_SIZE_ERROR, and no connection error at all on RST_STREAM, PRIORITY or PING. *)
+Definition mild (f : RS.frame) (r : RS.reaction) : bool :=
   match r with
-  | RS.Process | RS.Ignore | RS.ConnClose => true
-  | RS.StreamErr c => stream_limit_code c
-  | RS.ConnErr c => stream_limit_code c || conn_limit_code c
+  | RS.Process | RS.Ignore => true
+  | RS.StreamErr c =>
+    negb (is_rst_frame f) &&
+    (policy_code c || ((c =? c_FlowControlError) && match RS.f_kind f with RS.DATA | RS.WINDOW_UPDATE => true | _ => false end))
+  | RS.ConnErr c =>
+    match RS.f_kind f with
+    | RS.HEADERS | RS.CONTINUATION => block_code c
+    | RS.DATA | RS.WINDOW_UPDATE | RS.SETTINGS => c =? c_FlowControlError
+    | RS.GOAWAY => c =? c_NoError
+    | _ => false
+    end
+  | RS.ConnClose =>
+    match RS.f_kind f with
+    | RS.HEADERS | RS.CONTINUATION | RS.DATA | RS.WINDOW_UPDATE | RS.SETTINGS | RS.GOAWAY => true
+    | _ => false
+    end
   end.
 
-Lemma may_process_limit_verdicts s i : RS.may_process s i = true -> forallb limit_verdict (RS.verdicts s i) = true.
+(* for the full statement of (b): the codes of all these *)
+Definition stream_limit_code (c : N) : bool := policy_code c || (c =? c_FlowControlError).
+Definition conn_limit_code (c : N) : bool := block_code c || (c =? c_FlowControlError) || (c =? c_NoError).
+
+Lemma may_process_side_verdicts s f : RS.may_process s (RS.Frame f) = true -> forallb (side_verdict f) (RS.verdicts s (RS.Frame f)) = true.
 Proof.
-  unfold RS.may_process. destruct i as [f| |code|]; cbn [RS.verdicts]; try (cbn; discriminate).
-  - destruct f as [k sid es eh self inc]. cbn [RS.f_kind RS.f_sid].
-    destruct (RS.block s) as [b|].
-    + destruct k; try (cbn; discriminate). destruct (sid =? b); [|cbn; discriminate].
-      unfold RS.on_stream, RS.by_state. cbn [RS.f_kind RS.f_sid RS.f_es RS.f_self RS.f_inc].
-      destruct (RS.st_of s sid) as [| | | |[| | |]]; cbn; try discriminate; reflexivity.
-    + destruct k; try (cbn; discriminate);
-        (destruct (sid =? 0);
-         [ unfold RS.on_connection; cbn [RS.f_kind RS.f_inc]; try (cbn; discriminate); try reflexivity;
-           try (destruct (inc =? 0); cbn; try discriminate; reflexivity)
-         | try (cbn; discriminate);
-           unfold RS.on_stream, RS.by_state, RS.priority_frame, RS.window_update; cbn [RS.f_kind RS.f_sid RS.f_es RS.f_self RS.f_inc];
-           destruct (RS.st_of s sid) as [| | | |[| | |]]; try (cbn; discriminate);
-           repeat match goal with
-                  | |- context [if ?b then _ else _] => destruct b
-                  end; cbn; try discriminate; reflexivity ]).
-  - destruct (RS.block s); cbn; discriminate.
+  unfold RS.may_process. cbn [RS.verdicts].
+  destruct f as [k sid es eh self inc]. cbn [RS.f_kind RS.f_sid].
+  destruct (RS.block s) as [b|].
+  - destruct k; try (cbn; discriminate). destruct (sid =? b); [|cbn; discriminate].
+    unfold RS.on_stream, RS.by_state. cbn [RS.f_kind RS.f_sid RS.f_es RS.f_self RS.f_inc].
+    destruct (RS.st_of s sid) as [| | | |[| | |]]; cbn; try discriminate; reflexivity.
+  - destruct k; try (cbn; discriminate);
+      (destruct (sid =? 0);
+       [ unfold RS.on_connection; cbn [RS.f_kind RS.f_inc]; try (cbn; discriminate); try reflexivity;
+         try (destruct (inc =? 0); cbn; try discriminate; reflexivity)
+       | try (cbn; discriminate);
+         unfold RS.on_stream, RS.by_state, RS.priority_frame, RS.window_update; cbn [RS.f_kind RS.f_sid RS.f_es RS.f_self RS.f_inc];
+         destruct (RS.st_of s sid) as [| | | |[| | |]]; try (cbn; discriminate);
+         repeat match goal with
+                | |- context [if ?b then _ else _] => destruct b
+                end; cbn; try discriminate; reflexivity ]).
 Qed.
 
-Lemma limit_verdict_mild v r : limit_verdict v = true -> RS.admits v r = true -> mild r = true.
+Lemma side_verdict_mild f v r : side_verdict f v = true -> RS.admits v r = true -> mild f r = true.
 Proof.
-  destruct v as [| |c|c], r as [| |c'|c'|]; cbn; try discriminate; try reflexivity; intros L E; apply N.eqb_eq in E; subst c'; rewrite L; try reflexivity.
-  apply orb_true_r.
+  destruct v as [| |c|c|c], r as [| |c'|c'|]; cbn [side_verdict RS.admits mild]; try discriminate; try reflexivity; intros L E;
+    try (apply N.eqb_eq in E; subst c').
+  - (* SE, StreamErr *) apply andb_true_iff in L. destruct L as [L1 L2]. rewrite L1, L2.
+    destruct (RS.f_kind f) eqn:K; try discriminate; unfold is_rst_frame; rewrite K; cbn; apply orb_true_r.
+  - (* SE, ConnErr *) apply andb_true_iff in L. destruct L as [L1 L2]. destruct (RS.f_kind f); try discriminate; exact L1.
+  - (* SE, ConnClose *) apply andb_true_iff in L. destruct L as [L1 L2]. destruct (RS.f_kind f); try discriminate; reflexivity.
+  - (* CE, ConnErr *) destruct (RS.f_kind f); try discriminate; exact L.
+  - (* CE, ConnClose *) destruct (RS.f_kind f); try discriminate; reflexivity.
+  - (* PE, StreamErr *) apply andb_true_iff in L. destruct L as [L1 L2]. rewrite L1, L2. reflexivity.
 Qed.
 
-Lemma may_process_mild s i r : RS.may_process s i = true -> RS.dead s = false -> RS.allowed s i r = true -> mild r = true.
+Lemma may_process_mild s f r : RS.may_process s (RS.Frame f) = true -> RS.dead s = false -> RS.goaway s = false ->
+  RS.allowed s (RS.Frame f) r = true -> mild f r = true.
 Proof.
-  intros MP D A. unfold RS.allowed in A. rewrite D in A. cbn [andb] in A. rewrite orb_false_r in A.
-  apply orb_true_iff in A. destruct A as [A|A].
-  - apply existsb_exists in A. destruct A as (v & Hin & Ha).
-    pose proof (may_process_limit_verdicts s i MP) as F. rewrite forallb_forall in F. exact (limit_verdict_mild v r (F v Hin) Ha).
-  - destruct r; try (rewrite andb_false_r in A; discriminate). reflexivity.
+  intros MP D Ga A. unfold RS.allowed in A. rewrite D, Ga in A. cbn [andb] in A. rewrite !orb_false_r in A.
+  apply existsb_exists in A. destruct A as (v & Hin & Ha).
+  pose proof (may_process_side_verdicts s f MP) as F. rewrite forallb_forall in F. exact (side_verdict_mild f v r (F v Hin) Ha).
 Qed.
+
+(* ---------- the ingredients of the full statement of (b) (Props/C08.v) ---------- *)
+
+Definition frame_of_item (it : item) : list sframe := match it with IIn (RFrame f) => [f] | _ => [] end.
+(* frames on client stream ids below 512 (the ring of closed streams never forgets) or on stream 0, no GOAWAY frame;
+   handler completions *)
+Definition only_frames_and_completions (its : list item) : bool :=
+  forallb (fun it => match it with
+                     | IIn (RFrame f) => ((N.odd (sf_sid f) && (sf_sid f <? 512)) || (sf_sid f =? 0)) &&
+                                         negb (match sf_kind f with KGoAway => true | _ => false end)
+                     | IDone _ _ => true
+                     | _ => false
+                     end) its.
+(* the server raised no error of the discretionary classes *)
+Definition no_limit_error (o : outev) : bool :=
+  match strip_late o with
+  | ORst _ code => negb (stream_limit_code code)
+  | OGoAway _ code => negb (stream_limit_code code || conn_limit_code code)
+  | _ => true
+  end.
+Definition no_error_at_all (o : outev) : bool :=
+  match strip_late o with ORst _ _ | OGoAway _ _ | OExit _ _ | OPanic _ _ => false | _ => true end.
 
 Section Legal.
 Variable hstate : Type.
@@ -76,21 +132,21 @@ Notation feed := (feed hstate dec_field enc_field enc_set_max cfg).
 Notation run_items := (run_items hstate dec_field enc_field enc_set_max cfg).
 Notation c_init := (init_conn cfg h0).
 
-(* along a lockstep run: an input the table lets take effect in the specification state reached so far
-   (connection not yet in error), outside the known deviations, is processed, ignored, or answered with an
-   error of the discretionary classes *)
+(* along a lockstep run: a frame the table lets take effect in the specification state reached so far (connection
+   not in error, no GOAWAY sent), outside the known deviations, is processed, ignored, or answered with one of the
+   errors `mild` lists *)
 Theorem legal_reaction_class its :
-  forall pre i post, its = pre ++ IIn i :: post ->
+  forall pre fr post, its = pre ++ IIn (RFrame fr) :: post ->
     let c := fst (run_items c_init RS.init pre) in
     let s := snd (run_items c_init RS.init pre) in
-    sc_sl_done c = false -> RS.dead s = false ->
-    RS.may_process s (abs_input i) = true -> known_deviation hstate c s i = false ->
-    mild (resolve s (abs_input i) (reaction_of hstate c i (feed c (IIn i)))) = true.
+    sc_sl_done c = false -> RS.dead s = false -> RS.goaway s = false ->
+    RS.may_process s (RS.Frame (abs_frame fr)) = true -> known_deviation hstate c s (RFrame fr) = false ->
+    mild (abs_frame fr) (resolve s (RS.Frame (abs_frame fr)) (reaction_of hstate c (RFrame fr) (feed c (IIn (RFrame fr))))) = true.
 Proof.
-  intros pre i post E c s Hsl D MP KD.
+  intros pre fr post E c s Hsl D Ga MP KD.
   destruct (reactions_allowed hstate dec_field enc_field enc_set_max cfg h0 its) as [_ H].
-  specialize (H pre (IIn i) post E Hsl). fold c s in H. destruct H as [H|H]; [|congruence].
-  unfold item_ok in H. exact (may_process_mild s _ _ MP D H).
+  specialize (H pre (IIn (RFrame fr)) post E Hsl). fold c s in H. destruct H as [H|H]; [|congruence].
+  unfold item_ok in H. exact (may_process_mild s _ _ MP D Ga H).
 Qed.
 
 End Legal.
